@@ -214,6 +214,131 @@ Proof.
   apply in_firstn in Hx. now apply in_skipn in Hx.
 Qed.
 
+Lemma app_inj_pre {A} (l1 l2 r1 r2 : list A) : l1 ++ r1 = l2 ++ r2 -> (length l1 = length l2)%nat -> l1 = l2 /\ r1 = r2.
+Proof.
+  revert l2. induction l1 as [|a l1 IH]; intros [|b l2] H Hl; cbn in *; try lia; [auto|].
+  inversion H; subst. destruct (IH l2 H2 ltac:(lia)) as [-> ->]. auto.
+Qed.
+
+(* ---------- slicing depends only on the symbols the data renders to ---------- *)
+
+(* two byte strings whose used digits agree: all digits of every byte but the first, and the lowest `r` digits of
+   the first byte (the bits above them may hold meta data) *)
+Definition digits_agree (st : states) (r : nat) (data data' : list byte) : Prop :=
+  (length data = length data')%nat /\ forall j b b', nth_error data j = Some b -> nth_error data' j = Some b' ->
+    forall pos, (pos < per_byte st)%nat -> (j = 0%nat -> (pos < r)%nat) -> digit st b pos = digit st b' pos.
+
+Lemma slice_loop_ext st data data' lsb r : digits_agree st r data data' -> (1 <= r <= per_byte st)%nat ->
+  forall n work, (lsb + n <= (length data - 1) * per_byte st + r)%nat ->
+  slice_loop st data lsb (length data * per_byte st) n work
+  = slice_loop st data' lsb (length data * per_byte st) n work.
+Proof.
+  intros [Hlen Hag] Hr. pose proof (per_byte_pos st) as Hpb. set (pb := per_byte st) in *.
+  induction n as [|n IH]; intros work Hn; [reflexivity|].
+  cbn [slice_loop]. fold pb. unfold usub.
+  destruct (Nat.leb_spec (S (lsb + n)) (length data * pb)) as [Hle|Hgt]; [|reflexivity]. cbn [bind].
+  set (j := ((length data * pb - S (lsb + n)) / pb)%nat).
+  assert (Hj : (j < length data)%nat) by (apply Nat.div_lt_upper_bound; nia).
+  destruct (nth_error data j) as [b|] eqn:Eb; [|apply nth_error_None in Eb; lia].
+  destruct (nth_error data' j) as [b'|] eqn:Eb'; [|apply nth_error_None in Eb'; lia].
+  cbn [of_option bind].
+  assert (Hd : digit st b ((lsb + n) mod pb) = digit st b' ((lsb + n) mod pb)).
+  { apply (Hag j b b' Eb Eb'); [apply Nat.mod_upper_bound; lia|].
+    intros Hj0.
+    (* byte 0: the bit lies in the last (length data - 1) * pb .. range *)
+    assert (Hlow : ((length data - 1) * pb <= lsb + n)%nat).
+    { unfold j in Hj0. apply Nat.div_small_iff in Hj0; [|lia]. nia. }
+    assert (Hm : ((lsb + n) mod pb = lsb + n - (length data - 1) * pb)%nat).
+    { symmetry. apply Nat.mod_unique with (q := (length data - 1)%nat); lia. }
+    rewrite Hm. lia. }
+  rewrite Hd. destruct (Nat.eqb (n mod pb) 0).
+  - rewrite IH by lia. reflexivity.
+  - apply IH. lia.
+Qed.
+
+Lemma digits_eq_pointwise st cnt b b' : digits st cnt b = digits st cnt b' ->
+  forall pos, (pos < cnt)%nat -> digit st b pos = digit st b' pos.
+Proof.
+  unfold digits. intros H pos Hp.
+  assert (Hin : In pos (rev (seq 0 cnt))) by (apply in_rev; rewrite rev_involutive; apply in_seq; lia).
+  revert H Hin. generalize (rev (seq 0 cnt)). induction l as [|x l IH]; cbn [map]; intros H Hin; [destruct Hin|].
+  inversion H. destruct Hin as [->|Hin]; auto.
+Qed.
+
+Lemma digits_length st cnt b : length (digits st cnt b) = cnt.
+Proof. unfold digits. now rewrite map_length, rev_length, seq_length. Qed.
+
+Lemma flat_digits_agree st : forall rest rest',
+  flat_map (digits st (per_byte st)) rest = flat_map (digits st (per_byte st)) rest' ->
+  (length rest = length rest')%nat /\ forall j b b', nth_error rest j = Some b -> nth_error rest' j = Some b' ->
+    forall pos, (pos < per_byte st)%nat -> digit st b pos = digit st b' pos.
+Proof.
+  pose proof (per_byte_pos st) as Hpb.
+  induction rest as [|a r IH]; intros [|a' r'] H; cbn [flat_map] in H.
+  - split; [reflexivity|]. intros [|j]; discriminate.
+  - exfalso. pose proof (digits_length st (per_byte st) a') as Hl. destruct (digits st (per_byte st) a'); [cbn in Hl; lia|discriminate].
+  - exfalso. pose proof (digits_length st (per_byte st) a) as Hl. destruct (digits st (per_byte st) a); [cbn in Hl; lia|discriminate].
+  - apply app_inj_pre in H; [|now rewrite !digits_length]. destruct H as [H1 H2].
+    destruct (IH r' H2) as [Hl Hag]. split; [cbn [length]; lia|].
+    intros [|j] b b' Hb Hb'; cbn [nth_error] in *.
+    + inversion Hb; inversion Hb'; subst. now apply digits_eq_pointwise.
+    + eapply Hag; eassumption.
+Qed.
+
+Definition used_in_first (st : states) (bits : nat) : nat :=
+  if Nat.eqb (bits mod per_byte st) 0 then per_byte st else (bits mod per_byte st)%nat.
+
+Lemma nss_agree st data data' bits syms : (1 <= bits)%nat ->
+  n_state_symbols st data bits = Ok syms -> n_state_symbols st data' bits = Ok syms ->
+  digits_agree st (used_in_first st bits) data data'.
+Proof.
+  intros Hb H H'. unfold n_state_symbols in *. destruct (Nat.eqb_spec bits 0) as [|_]; [lia|].
+  unfold used_in_first. destruct (bits mod per_byte st)%nat as [|k] eqn:Em; cbn [Nat.eqb].
+  - inversion H; inversion H'; subst syms.
+    destruct (flat_digits_agree st data data' (eq_sym H2)) as [Hl Hag]. split; [exact Hl|].
+    intros j b b' Hj Hj' pos Hp _. eapply Hag; eassumption.
+  - destruct data as [|d0 rest]; [discriminate|]. destruct data' as [|d0' rest']; [discriminate|].
+    inversion H; inversion H'; subst syms. symmetry in H2.
+    apply app_inj_pre in H2; [|now rewrite !digits_length]. destruct H2 as [H1 H2].
+    destruct (flat_digits_agree st rest rest' H2) as [Hl Hag]. split; [cbn [length]; lia|].
+    intros [|j] b b' Hj Hj' pos Hp Hr; cbn [nth_error] in *.
+    + inversion Hj; inversion Hj'; subst. apply (digits_eq_pointwise st (S k)); [exact H1|]. now apply Hr.
+    + eapply Hag; eassumption.
+Qed.
+
+Lemma used_in_first_range st bits : (1 <= bits)%nat ->
+  (1 <= used_in_first st bits <= per_byte st)%nat /\
+  ((div_ceil bits (per_byte st) - 1) * per_byte st + used_in_first st bits = bits)%nat.
+Proof.
+  intros Hb. unfold used_in_first, div_ceil.
+  destruct st; cbn [per_byte];
+    match goal with |- context [Nat.eqb ?a 0] => destruct (Nat.eqb_spec a 0) end; lia.
+Qed.
+
+(* slicing any byte string that renders to `syms` (whatever its unused high bits hold) gives the packed form of
+   the sub-range [msb:lsb] *)
+Theorem slice_n_states_sem debug st data syms msb lsb : small_syms st syms ->
+  length data = div_ceil (length syms) (per_byte st) ->
+  n_state_symbols st data (length syms) = Ok syms ->
+  (lsb <= msb < length syms)%nat -> (msb - lsb + 1 < length syms)%nat ->
+  slice_n_states debug st data msb lsb (length syms)
+  = Ok (write_n_state_loop st (firstn (msb - lsb + 1) (skipn (length syms - 1 - msb) syms)) 0 None).
+Proof.
+  intros Hs Hlen Hn Hr Hp.
+  rewrite <- (slice_n_states_spec debug st syms msb lsb Hs Hr Hp).
+  pose proof (packed_length st syms) as Hpl.
+  pose proof (pack_unpack st syms Hs) as Hpu.
+  assert (Hb : (1 <= length syms)%nat) by lia.
+  pose proof (nss_agree st data _ (length syms) syms Hb Hn Hpu) as Hag.
+  destruct (used_in_first_range st (length syms) Hb) as [Hur Hsum].
+  unfold slice_n_states. destruct (usub msb lsb) as [d| |] eqn:Ed; try reflexivity. cbn [bind].
+  rewrite Hpl, Hlen.
+  destruct (debug && _); [reflexivity|].
+  rewrite <- Hlen. rewrite (slice_loop_ext st data _ lsb _ Hag Hur).
+  - now rewrite Hlen, <- Hpl.
+  - unfold usub in Ed. destruct (lsb <=? msb)%nat; [|discriminate]. inversion Ed; subst d. rewrite Hlen. lia.
+Qed.
+
 Example slice_example :
   slice_n_states true Nine (write_n_state_loop Nine [5; 5; 5] 0 None) 1 1 3 = Ok [5] /\
   slice_n_states true Two (write_n_state_loop Two [0;0;0;1;0;0;1] 0 None) 3 3 7 = Ok [1].
